@@ -7,26 +7,15 @@ func sOrient(a, b, c Point) float64 {
 	return (b.X-a.X)*(c.Y-a.Y) - (b.Y-a.Y)*(c.X-a.X)
 }
 
+// specs are written without early returns so that their symbolic form is a flat boolean combination of
+// comparison atoms (shared with the implementation's atoms after normalisation)
+
+func sBetween(x, a, b float64) bool {
+	return (a <= x && x <= b) || (b <= x && x <= a)
+}
+
 func sInBox(p, a, b Point) bool {
-	if a.X <= b.X {
-		if p.X < a.X || p.X > b.X {
-			return false
-		}
-	} else {
-		if p.X < b.X || p.X > a.X {
-			return false
-		}
-	}
-	if a.Y <= b.Y {
-		if p.Y < a.Y || p.Y > b.Y {
-			return false
-		}
-	} else {
-		if p.Y < b.Y || p.Y > a.Y {
-			return false
-		}
-	}
-	return true
+	return sBetween(p.X, a.X, b.X) && sBetween(p.Y, a.Y, b.Y)
 }
 
 // sOnSeg: p lies on the closed segment ab
@@ -37,29 +26,20 @@ func sOnSeg(p, a, b Point) bool {
 // sCrossHalfOpen: the rightward horizontal ray from p crosses ab under the half-open rule
 // (an endpoint level with p counts as below it). Only meaningful when p is not on ab.
 func sCrossHalfOpen(p, a, b Point) bool {
-	lo, hi := a, b
-	if a.Y > b.Y {
-		lo, hi = b, a
-	}
-	if lo.Y == hi.Y {
-		return false
-	}
-	if !(lo.Y <= p.Y && p.Y < hi.Y) {
-		return false
-	}
-	return sOrient(lo, hi, p) > 0
+	up := a.Y <= p.Y && p.Y < b.Y && sOrient(a, b, p) > 0
+	down := b.Y <= p.Y && p.Y < a.Y && sOrient(b, a, p) > 0
+	return up || down
 }
 
 // sSegSeg: closed segments ab and cd share a point
 func sSegSeg(a, b, c, d Point) bool {
-	if sOnSeg(a, c, d) || sOnSeg(b, c, d) || sOnSeg(c, a, b) || sOnSeg(d, a, b) {
-		return true
-	}
+	touch := sOnSeg(a, c, d) || sOnSeg(b, c, d) || sOnSeg(c, a, b) || sOnSeg(d, a, b)
 	d1 := sOrient(c, d, a)
 	d2 := sOrient(c, d, b)
 	d3 := sOrient(a, b, c)
 	d4 := sOrient(a, b, d)
-	return ((d1 > 0 && d2 < 0) || (d1 < 0 && d2 > 0)) && ((d3 > 0 && d4 < 0) || (d3 < 0 && d4 > 0))
+	proper := ((d1 > 0 && d2 < 0) || (d1 < 0 && d2 > 0)) && ((d3 > 0 && d4 < 0) || (d3 < 0 && d4 > 0))
+	return touch || proper
 }
 
 func vPoint(name string, i int) Point {
@@ -146,10 +126,8 @@ func H_K_SegRect(_ []int) {
 
 // Contract of Segment.Raycast (justified by K1/K2, which are re-proved by every check that uses it).
 func spec_Segment_Raycast(seg Segment, p Point) RaycastResult {
-	if sOnSeg(p, seg.A, seg.B) {
-		return RaycastResult{false, true}
-	}
-	return RaycastResult{sCrossHalfOpen(p, seg.A, seg.B), false}
+	on := sOnSeg(p, seg.A, seg.B)
+	return RaycastResult{In: !on && sCrossHalfOpen(p, seg.A, seg.B), On: on}
 }
 
 // The segment-intersection spec is symmetric in its operands (so K3 gives K4 over all reals).
